@@ -27,6 +27,7 @@ Step(r, o) ==
       [] o.op = "enable" -> IF p = 0 THEN <<r, ~o.r.ok>> ELSE <<[r EXCEPT ![p].e = o.b], o.r.ok>>
       [] o.op = "get"    -> IF p = 0 THEN <<r, ~o.r.ok>>
                             ELSE <<r, o.r.ok /\ o.r.rn = o.n /\ o.r.rs = r[p].s /\ o.r.re = r[p].e>>
+      [] o.op = "clear"  -> <<<<>>, o.r.ok>>
       [] o.op = "list"   -> <<r, o.r.names = r>>
       [] o.op = "count"  -> <<r, o.r.count = Len(r)>>
 
@@ -38,7 +39,12 @@ Lin(i) == /\ i \notin done
           /\ LET st == Step(rs, Ops(h)[i]) IN st[2] /\ rs' = st[1]
           /\ done' = done \cup {i} /\ h' = h
 
-NextHist == /\ h <= NHist /\ done = DOMAIN Ops(h) /\ rs = Hist[h].final
+(* the quiescent read-back: the listing, a lookup of every name, and the count all describe the linearized final state *)
+FinalOK(i) == /\ rs = Hist[i].final /\ Hist[i].fcount = Len(rs)
+              /\ \A k \in DOMAIN Hist[i].fget :
+                     LET g == Hist[i].fget[k]  p == PosOf(rs, g.n) IN
+                     IF p = 0 THEN ~g.ok ELSE g.ok /\ g.rs = rs[p].s /\ g.re = rs[p].e
+NextHist == /\ h <= NHist /\ done = DOMAIN Ops(h) /\ FinalOK(h)
             /\ h' = h + 1 /\ done' = {}
             /\ rs' = IF h + 1 <= NHist THEN Hist[h + 1].init ELSE <<>>
 
